@@ -397,3 +397,11 @@ REGISTRY["C19"]["theorems"] += T("Proofs.C19d", "BLDFM.C19", ["km_crosswind_inte
 REGISTRY["C19"]["partial_clauses"][0] = ("the continuous crosswind-integrated footprint has EXACTLY the regularised incomplete-gamma mass Q(mu, xi/X) within the upwind extent X "
     "(km_mass_within_extent; the upper incomplete gamma function is written as its defining integral because Mathlib has none), unit mass over the half line and a unit-mass "
     "crosswind Gaussian; that the GRID SUM tends to this integral as the grid is refined (Riemann-sum convergence) is a numeric oracle only (scipy.special.gammaincc)")
+
+# C05 order clause, sharp form: on a uniform grid the error IS cubic (leading term -e^{-mu h} h mu^4 dz^3/24 + O(dz^4))
+REGISTRY["C05"]["theorems"] += T("Proofs.C05c", "BLDFM.C05", ["p3_eq", "layerDefect_leading", "layerDefect_le", "pow_one_add_remainder", "pow_one_add_remainder_exp",
+                                                               "uniform_product_leading", "leading_term_cubic", "leading_term_halving", "numeric_flux_leading_error"])
+REGISTRY["C05"]["partial_clauses"] = ["float rounding; 'about eightfold per halving' is a theorem in the following form: on a uniform grid the numeric-minus-analytic flux is "
+                                      "-q e^{-mu h} h mu^4 dz^3 / 24 plus a remainder one order smaller (numeric_flux_leading_error), and the leading term at dz/2 is exactly one eighth "
+                                      "of the one at dz (leading_term_halving); for non-uniform grids the upper bound of numeric_vs_analytic_flux/_conc (cubic in the largest layer "
+                                      "thickness) applies; the observed ratios (8.1-8.8 at 16-64 layers) are checked by the order oracle"]
